@@ -2,7 +2,7 @@
 import copy
 import json
 import re
-from vf.core import cZ, cbool, clist, copt, cpair
+from vf.core import cZ, cbool, clist, copt, cpair, cstr
 
 PID = "C16"
 MODULES = ["Prelude", "C16_Model", "C16_Spec", "C16_Check"]
@@ -10,7 +10,8 @@ PROPS_MODULE = "C16_Properties"
 THEOREMS = ["C16_total", "C16_sound", "C16_rejects", "C16_rejects_unparseable_url", "C16_rejects_mixed_schemes",
             "C16_rejects_unusable_pem", "C16_rejects_unknown_reference", "C16_rejects_bad_flowcontrol",
             "C16_model_meets_spec", "C16_sound_refuted_without_insecure_ca_check",
-            "C16_sound_usable", "C16_sound_update", "C16_sound_remote", "C16_remote_refuted_without_stale_remote_fix",
+            "C16_sound_usable", "C16_featuregate_annotation_sound", "C16_featuregate_annotation_rejected",
+            "C16_sound_update", "C16_sound_remote", "C16_remote_refuted_without_stale_remote_fix",
             "C16_remote_refuted_without_stale_status_fix", "C16_remote_refuted_without_no_limiter_fix"]
 EVAL = "C16_Check.eval_x"
 CLAUSES = ["agree", "total", "sound", "rejects", "sound_update", "sound_remote"]
@@ -48,6 +49,32 @@ NAMES_OK = ["c1", "prod.example.com", "a-b.c"]
 NAMES_BAD = ["", "UPPER", "a_b", "x" * 300, "-a"]
 GATES_OK = [None, None, None, "", "DenyAllRequests=true", "Tracing=true,GlobalRateLimiter=false"]
 GATES_BAD = ["Nope=true", "DenyAllRequests=maybe", "garbage"]
+# a grammar of raw annotation values: white space, separators, empties, unknown gates, bad booleans, duplicates
+# (ASCII only).  Which of them parse is decided by the real featuregate.Set (oracle) and by the model's parser.
+GATE_KEYS = ["Tracing", "DenyAllRequests", "GlobalRateLimiter", "CloseConnectionWhenIdle", "AllAlpha", "Nope", "tracing", ""]
+GATE_VALS = ["true", "false", "1", "0", "T", "f", "True", "FALSE", "yes", "maybe", "", "tRue"]
+GATE_WS = ["", "", "", " ", "\n", "\t", "  ", "\r\n"]
+GATE_FIXED = [" ", "\n", "\t", ",", ",,", " , ", "Tracing=true\n", " Tracing=true", "Tracing=true ,", "Tracing=true, ",
+              "Tracing=true,", "Tracing=true,,DenyAllRequests=false", "Tracing = true", "Tracing= true", "Tracing =true",
+              "DenyAllRequests=false,\n", "Tracing=true,Tracing=false", "Tracing=true,Tracing=maybe", "Tracing",
+              "Tracing=", "=true", "Tracing=true=false", "Tracing==true", "AllAlpha=true", "AllBeta=false,Tracing=1",
+              "Tracing=true;DenyAllRequests=true", "Tracing:true", "\nTracing=true,\nDenyAllRequests=false\n"]
+
+
+def gen_gate(rng):
+    k = rng.below(10)
+    if k < 3:
+        return rng.choice(GATE_FIXED)
+    pieces = []
+    for _ in range(rng.randint(1, 3)):
+        if rng.chance(1, 8):
+            pieces.append(rng.choice(["", " ", "\n"]))
+            continue
+        key = rng.choice(GATE_KEYS[:5]) if rng.chance(4, 5) else rng.choice(GATE_KEYS)
+        val = rng.choice(GATE_VALS[:8]) if rng.chance(4, 5) else rng.choice(GATE_VALS)
+        eq = "=" if rng.chance(9, 10) else rng.choice(["", " ", ":"])
+        pieces.append(rng.choice(GATE_WS) + key + rng.choice(GATE_WS[:5]) + eq + rng.choice(GATE_WS[:5]) + val + rng.choice(GATE_WS))
+    return ",".join(pieces)
 EP_HTTPS = ["https://127.0.0.1:6443", "https://127.0.0.2:6443", "https://127.0.0.3:6443/prefix"]
 EP_HTTP = ["http://127.0.0.1:8080", "http://127.0.0.2:8080"]
 EP_ODD = ["https://%zz", "http://", "https://", "ftp://x", "https://a b", "HTTPS://127.0.0.1:1", "127.0.0.1:6443", "",
@@ -156,8 +183,12 @@ def corpus():
     cs.append(mut(cc__cert="certA", cc__token="none"))
     cs.append(mut(cc__token="empty"))
     cs.append(mut(cc__token="none"))
-    for g in GATES_OK[3:] + GATES_BAD:
+    for g in GATES_OK[3:] + GATES_BAD + GATE_FIXED:
         cs.append(mut(gate=g))
+    for g in [" ", "Tracing=true, ", "Tracing=true\n", " Tracing=true"]:       # combined with other sections
+        cs.append(mut(gate=g, ss__key="keyA", schemas=[schema("s1", "globalCount", mri=5, gmri=9)]))
+        cs.append(mut(gate=g, servers__0__ep="https://%zz"))
+        cs.append(mut(gate=g, schemas__0__mri=-1))
     for ep in EP_ODD:
         cs.append(mut(servers__0__ep=ep))
         cs.append(mut(servers__1__ep=ep))
@@ -295,7 +326,7 @@ def well_formed(rng):
     eps = rng.sample((EP_HTTPS + EP_NEAR_BASES[:3] + EP_NEAR_BASES[4:]) if https else (EP_HTTP + [EP_NEAR_BASES[3]]), rng.randint(1, 3))
     o = base()
     o["name"] = rng.choice(NAMES_OK)
-    o["gate"] = rng.choice(GATES_OK)
+    o["gate"] = rng.choice(GATES_OK) if rng.chance(2, 3) else gen_gate(rng)
     o["servers"] = [srv(e, rng.choice([None, None, False, True])) for e in eps]
     cc = o["cc"]
     if https:
@@ -338,7 +369,7 @@ def rand_schema(rng):
     return schema(rng.choice(SNAMES), rng.choice(STRATS), rng.chance(1, 4), m(), t(), m(), t())
 
 
-MUTATORS = ["name", "gate", "ep", "addep", "delep", "insecure", "token", "cckey", "cccert", "ccca", "ccnum", "sskey",
+MUTATORS = ["name", "gate", "gate", "ep", "addep", "delep", "insecure", "token", "cckey", "cccert", "ccca", "ccnum", "sskey",
             "sscert", "ssca", "schema", "addschema", "delschema", "schemafield", "logging", "polsubset", "polschema",
             "polrules", "polstrategy", "pollog", "delpol", "nearsubset", "nearsubset", "nearserver", "nearschema",
             "nearschemaname", "subsetok"]
@@ -350,7 +381,7 @@ def mutate(rng, o):
     if k == "name":
         o["name"] = rng.choice(NAMES_OK + NAMES_BAD)
     elif k == "gate":
-        o["gate"] = rng.choice(GATES_OK + GATES_BAD)
+        o["gate"] = rng.choice(GATES_OK + GATES_BAD) if rng.chance(1, 3) else gen_gate(rng)
     elif k == "ep" and o["servers"]:
         rng.choice(o["servers"])["ep"] = rng.choice(EP_ODD + EP_HTTPS + EP_HTTP)
     elif k == "addep":
@@ -440,7 +471,7 @@ def mutate(rng, o):
 
 def malformed(rng):
     eps = [srv(rng.choice(EP_ODD + EP_HTTPS + EP_HTTP), rng.choice([None, True, False])) for _ in range(rng.below(4))]
-    o = {"stream": "malformed", "name": rng.choice(NAMES_OK + NAMES_BAD), "gate": rng.choice(GATES_OK + GATES_BAD),
+    o = {"stream": "malformed", "name": rng.choice(NAMES_OK + NAMES_BAD), "gate": rng.choice(GATES_OK + GATES_BAD) if rng.chance(1, 2) else gen_gate(rng),
          "servers": eps,
          "cc": {"insecure": rng.chance(1, 2), "token": rng.choice(["none", "empty", "set"]), "key": rng.choice(KEYS),
                 "cert": rng.choice(CERTS), "ca": rng.choice(CAS), "qps": rng.choice(NUMS), "burst": rng.choice(NUMS),
@@ -632,7 +663,7 @@ DUMMY_FACTS = ("(Build_facts true GAbsent [] (Build_clientcfg false false false 
 
 
 RRES = {"ok": "ROk", "err": "RErr", "panic": "RPanic", "skip": "RSkip"}
-DUMMY_CASE = "(Build_case %s (Build_obs (VErrs []) Err false Panic Panic Panic None))" % DUMMY_FACTS
+DUMMY_CASE = "(Build_case %s (Build_obs (VErrs []) Err false Panic Panic Panic None) None)" % DUMMY_FACTS
 
 
 def single_term(case, obs, ids, names):
@@ -642,8 +673,8 @@ def single_term(case, obs, ids, names):
         pols = "(Some %s)" % clist(["(%s, %d, %s)" % (cbool(x["matched"]), x["known"], cbool(x["fc_default"]))
                                     for x in obs["pols"]])
     return ("(Build_case %s (Build_obs %s %s %s %s %s "
-            "%s %s))" % (facts_term(case, obs["facts"], ids, names), v, ARES[obs["admit"]], cbool(obs["admit_gate_err"]),
-                         ARES[obs["create"]], ARES[obs["ctrl"]], ARES[obs["lim"]], pols))
+            "%s %s) %s)" % (facts_term(case, obs["facts"], ids, names), v, ARES[obs["admit"]], cbool(obs["admit_gate_err"]),
+                            ARES[obs["create"]], ARES[obs["ctrl"]], ARES[obs["lim"]], pols, copt(case["gate"], cstr)))
 
 
 def pem_same(a, b):
@@ -689,6 +720,10 @@ def stats(case, obs):
         for x in obs["pols"]:
             labs.append("policy:%s/known=%s/%s" % ("matched" if x["matched"] else "unmatched", min(x["known"], 2),
                                                    "default-fc" if x["fc_default"] else "own-fc"))
+    if case.get("gate"):
+        labs.append("gate:%s admit=%s create=%s" % (obs["facts"]["gate"], obs["admit"], obs["create"]))
+        if case["gate"] != case["gate"].strip():
+            labs.append("gate:surrounding-whitespace:%s" % obs["facts"]["gate"])
     for i, r in enumerate(obs.get("rem", [])):
         labs.append("remote-round%d:%s/%s/%s/%s" % (i, r["sync"], r["count"], r["alloc"], r["load"]))
     if case.get("v2") and obs.get("upd"):
